@@ -10,6 +10,7 @@ import re
 
 from mirlib.dataflow import DefUse, base_local, operand_place
 from mirlib.program import norm_callee
+from . import common
 from .common import calls_matching, where
 
 ABS, REL, NUM, UNK, BAD = 'ABS', 'REL', 'NUM', 'UNK', 'BAD'
@@ -210,6 +211,9 @@ def flw17_segment_id_units(ctx):
         for (ln, ty) in F.args:
             if ty == 'std::ops::Range<u64>':
                 seeds[('range', ln)] = ABS
+        fmt_pred = lambda n_: n_.endswith('fmt::format') or 'new_display' in n_ or n_.endswith('std::path::Path::join')
+        F0 = F
+        F = common.inlined_anchor(P, F, fmt_pred)
         inf = UnitInference(F, seeds)
         n += 1
         for (site, txt) in inf.problems:
@@ -221,14 +225,15 @@ def flw17_segment_id_units(ctx):
                    '%d u64 quantities classified (%s)' % (
                        len(inf.kind), sorted(set(v for v in inf.kind.values() if v))), where(F.blocks[0].term))
         # closures: captured ranges / ids keep their kind; the id that is formatted must be ABS
-        for cb in P.closures_of(F):
+        for cb in P.closures_of(F0):
+            cb = common.inlined_anchor(P, cb, fmt_pred)
             cb.parse()
             cseeds = {}
             # find the aggregate that builds this closure in F and map captures
             for bid, blk in F.blocks.items():
                 for s in blk.stmts:
                     if s.kind == 'assign' and s.rhs.startswith('{closure@') and \
-                            P.closures_in_text(s.rhs.split('}')[0] + '}') == [cb]:
+                            [c_.name for c_ in P.closures_in_text(s.rhs.split('}')[0] + '}')] == [cb.name]:
                         caps = re.findall(r'(\w+): ((?:move|copy) _\d+)', s.rhs)
                         for idx, (nm, op) in enumerate(caps):
                             l = base_local(op)
